@@ -174,7 +174,7 @@ def kernel_part(out):
 
 
 def run():
-  return pairrun.run_pairs('C12', [('lv.gen_meta', 'c12_pairs', 36, 270)], FUNCTIONS, ASSUMPTIONS,
+  return pairrun.run_pairs('C12', [('lv.gen_meta', 'c12_pairs', 40, 1000)], FUNCTIONS, ASSUMPTIONS,
                            'DESIGN.md §3 C12', rejected_is_violation=lambda r: r.get('rejected_side') == 'a',
                            extra_fn=kernel_part)
 
